@@ -513,7 +513,49 @@ class C09(Prop):
         #    (implementation only: the writers are modelled by the db engine, the oracle checks the listing)
         for _ in range(40 if quick else 1500):
             out.append(self.dbwrite_case(rng, sid()))
+        # 9. the same writers with a response budget that runs out anywhere, also inside an object: whatever
+        #    was written must still parse and be a prefix of the selected points
+        for _ in range(60 if quick else 3000):
+            out.append(self.dbwrite_budget_case(rng, sid()))
         return out
+
+    def dbwrite_budget_case(self, rng, s):
+        ty = rng.choice(["ai", "ai", "ctr", "bi", "dbi"])
+        svar = rng.choice(self.SVARS[ty])
+        base = rng.choice([0, 5, 250, 65500])
+        n = rng.range(2, 30)
+        points = []
+        for k in range(n):
+            if ty == "bi": value = str(rng.below(2))
+            elif ty == "dbi": value = str(rng.below(4))
+            elif ty == "ctr": value = str(rng.below(1 << 32))
+            else: value = "%016x" % rng.choice([0, 0x400921FB54442D18, 0xC0F86A0000000000, rng.next()])
+            points.append({"type": ty, "index": base + k, "class": 0, "svar": svar, "evar": self.EVARS[ty][0],
+                           "value": value, "flags": rng.choice([1, 1, 0x41, 0x21]), "time": "n"})
+        budget = rng.range(5, 12 + 11 * n)
+        toks = ["dbwrite", budget] + ["%s,%d,%d,%d,%d,%s,%02x,%s" % (p["type"], p["index"], p["class"], p["svar"], p["evar"], p["value"], p["flags"], p["time"])
+                                      for p in points]
+        return Case(s, script_text(s, "app", {}, [tuple(toks)]),
+                    {"kind": "dbwrite-budget", "impl_only": True, "ops": [{"expect": "dbwrite-partial", "points": points, "budget": budget}]})
+
+    def check_dbwrite_partial(self, m, b):
+        if not b or not b[0].startswith("bytes "):
+            return "no bytes line: " + " / ".join(b)[:120]
+        data = bytes.fromhex(b[0].split()[1]) if b[0].split()[1] != "-" else b""
+        if len(data) - 4 > m["budget"]:
+            return "%d bytes written with a budget of %d" % (len(data), m["budget"])
+        listing = b[1:]
+        if any(l.startswith("obj-err") or l.startswith("hdr-err") for l in listing):
+            return "the library cannot parse its own (partial) response of %d bytes: %s" % (len(data), " / ".join(listing)[:160])
+        got = []
+        for l in listing[2:]:
+            t = l.split()
+            if t[0] == "o" and t[1] != "-":
+                got.append(int(t[1]))
+        want = [p["index"] for p in m["points"]]
+        if got != want[:len(got)]:
+            return "points written at %s are not a prefix of the selected %s" % (got[:8], want[:8])
+        return None
 
     SVARS = {"bi": [1, 2], "dbi": [1, 2], "ctr": [1, 2, 5, 6], "ai": [1, 2, 3, 4, 5, 6], "oct": [0]}
     EVARS = {"bi": [1, 2, 3], "dbi": [1, 2, 3], "ctr": [1, 2, 5, 6], "ai": [1, 2, 3, 4, 5, 6, 7, 8], "oct": [0]}
@@ -725,6 +767,10 @@ class C09(Prop):
                     fails.append(("builder-bytes", "the builder wrote %s, the request is %s" % (b[0][:120] if b else None, m["bytes"][:120])))
                 elif b[1:] != m["lines"]:
                     fails.append(("encoded-not-decoded", "a built request was not decoded to what was encoded: " + " / ".join(b[1:])[:200]))
+            elif e == "dbwrite-partial":
+                why = self.check_dbwrite_partial(m, b)
+                if why:
+                    fails.append(("partial-response-not-decoded", why))
             elif e == "dbwrite":
                 why = self.check_dbwrite(m, b)
                 if why:
